@@ -17,7 +17,7 @@ claimed = {
    text="Bounded symbolic model checking of Decoder.Decode for totality: every input of 0..6 (thorough 8) fully symbolic ASCII bytes, 10 structure-aware hostile templates with symbolic level digits and value bytes, and the C02 grammar files, under all option combinations; every Go run-time check (index, nil, type assertion) is an implicit obligation. The solver proves that each path returns a document or an error naming the line, and that the only panic is the documented indent panic without AllowInvalidIndents.",
    ref="DESIGN.md §3 C03", note="Process-level behaviour, 1 MB lines and native fuzzing are outside this technique. " + NOTE_COMMON),
  "C07": dict(
-   text="Bounded symbolic model checking of DeepEqual / DeepCopy on trees of up to 3 (permutation: 7) nodes over 8 node kinds with symbolic values: copy independence, reflexivity up to copying, permutation invariance, symmetry and single-edit sensitivity are assertions over all values. One genuine, non-small defect (order dependence with constrained dates) is a recorded known finding.",
+   text="Bounded symbolic model checking of DeepEqual / DeepCopy on trees of up to 3 (permutation: 5) nodes over 8 node kinds with symbolic values: copy independence, reflexivity up to copying, permutation invariance, symmetry and single-edit sensitivity are assertions over all values. One genuine, non-small defect (order dependence with constrained dates) is a recorded known finding.",
    ref="DESIGN.md §3 C07", note=NOTE_COMMON),
  "C08": dict(
    text="Bounded symbolic model checking of CompareNodes and the NodeDiff operations on pairs of small trees with symbolic values (every Equals pattern among siblings): provenance, coverage, two-sidedness and one-sidedness of entries, all-two-sided diffs for reordered copies, and input purity under every sequence of two diff operations.",
@@ -39,7 +39,7 @@ claimed = {
    text="Bounded symbolic model checking of MergeDocumentsAndIndividuals (the real Compare pipeline runs under the deterministic scheduler): a 3-person family merged with 9 variants of a second document (identical, renumbered, renumbered with more detail, edited copy with dropped / added people, disjoint, clashing pointers, empty, copies with a symbolic name byte) x default / strict / lenient thresholds x both argument orders. Every person carries a unique marker fact: each marker exactly once in the output, merged individuals join one left and one right person and hold the facts of both, inputs untouched, the output re-decodes to a fixpoint, every pointer names one record, every reference resolves, every family role still points to the same person. The missing pointer-rewriting step is a recorded known finding (8 signatures).",
    ref="DESIGN.md §3 C10", note=NOTE_COMMON),
  "C11": dict(
-   text="Bounded symbolic model checking of IndividualNodes.Compare under the schedule explorer and the happens-before race monitor: 8 input scenarios (renumbered copy, shared pointers, duplicated and crossed unique ids, identical twins, empty sides, a symbolic name byte) x Jobs 0..3 x thresholds (default; a symbolic MinimumWeightedSimilarity with Jobs 0/1; thorough: 0/0, 1/1, 0/1, 1/0); every schedule with at most one pre-emption at channel, sync.Map and mutex operations is a path. Every left and right individual in exactly one result, no empty result, every pair meets the (symbolic) threshold or shares an id or a trusted pointer, identical matching on every schedule and equal to the sequential run when no candidates tie; with Jobs 2 and 3 no two conflicting accesses to a field, element, global or map are unordered by synchronisation (reports are confirmed with the Go race detector).",
+   text="Bounded symbolic model checking of IndividualNodes.Compare under the schedule explorer and the happens-before race monitor: 8 input scenarios (renumbered copy, shared pointers, duplicated and crossed unique ids, identical twins, empty sides, a symbolic name byte) x Jobs 0..3 with the default thresholds (thorough: also 0/0, 1/1, 0/1, 1/0), every schedule with at most one pre-emption at channel, sync.Map and mutex operations being a path; Jobs 1..3 with a symbolic MinimumWeightedSimilarity on the deterministic schedule. Every left and right individual in exactly one result, no empty result, every pair meets the (symbolic) threshold or shares an id or a trusted pointer, identical matching on every schedule and equal to the sequential run when no candidates tie; with Jobs 2 and 3 no two conflicting accesses to a field, element, global or map are unordered by synchronisation (reports are confirmed with the Go race detector).",
    ref="DESIGN.md §3 C11", note="GOMAXPROCS is an environment choice {1,2,16} when the code asks for it; true parallelism, weak-memory effects, Jobs > 3 and pre-emption budgets > 1 are outside the bounds. " + NOTE_COMMON),
  "C12": dict(
    text="Bounded symbolic model checking of the similarity functions on the real SSA: JaroWinkler over every pair of byte strings of lengths 0..5 (thorough 0..7) with all 256 byte values symbolic, StringSimilarity on printable ASCII strings of lengths 0..3, DateRange.Similarity and its monotonicity on symbolic year-granularity dates (years 1..9999), the weighted surrounding similarity with symbolic component scores and weights, and IndividualNode / IndividualNodes.Similarity on individuals with symbolic names and birth years. Range [0,1], symmetry, identity, neutrality of missing data and monotonicity in distance are assertions over all values.",
@@ -69,6 +69,7 @@ claimed = {
    text="Bounded symbolic model checking of Document.Warnings on the real SSA: families and individuals whose exact dates have a symbolic day (1..28), month and year by choice: child-born-before-parent iff the child's birthday is earlier, once per parent and naming the right people, under 3 record orders and either parent; siblings-too-close iff 2 days..9 months apart once per pair; married too young / too old; individual too old; wrong event order; one unparsable-date warning per bad date; multiple sexes; inverted spouses for all 16 sex combinations. Before/after = calendar order is proved in the same check (VerifC05_Order) and used as a lemma.",
    ref="DESIGN.md §3 C20", note="Years are choices (a symbolic year makes every age computation a multi-second query); dates within a few days of a threshold are excluded (float age arithmetic is modelled with sound rounding slack). " + NOTE_COMMON),
 }
+RACE_TECH = "; schedules are decision variables of the same exploration (bounded pre-emption); a happens-before (vector clock) monitor reports unordered conflicting accesses of the explored executions, each confirmed with go test -race"
 NA = {}
 checks = []
 for pid in sorted(claimed):
@@ -82,7 +83,7 @@ for pid in sorted(claimed):
         "engine": "gosym",
         "level_claimed": {"category": "model_checking", "text": c["text"], "design_ref": c["ref"]},
         "level_note": c["note"],
-        "technique": "bounded symbolic execution of the repo's go/ssa; an SMT solver (z3 5.1 / z3 4.8 / cvc5) decides every branch feasibility and every assertion over all symbolic inputs; native replay of witnesses",
+        "technique": "bounded symbolic execution of the repo's go/ssa; an SMT solver (z3 5.1 / z3 4.8 / cvc5) decides every branch feasibility and every assertion over all symbolic inputs; native replay of witnesses" + (RACE_TECH if pid in ("C11", "C19") else ""),
     })
 na = [{"property_id": p["id"], "reason": NA.get(p["id"], "harness not built yet in this session (engine exists; see DESIGN.md §6 build order)")} for p in props if p["id"] not in claimed]
 m = {"version": 1,
